@@ -274,6 +274,10 @@ pub fn gen_case_sized(c: &mut Chooser, op: &str, prop: &str, small: bool) -> Cas
         // the universal monitors are per edge: a second subscription of the same output costs nothing
         n_probes = 2;
     }
+    if credit && !matches!(topo, Topo::Share(_) | Topo::ForEach) && !small && c.chance(1, 5) {
+        // a second sink of the same output must have its Pulls answered just the same
+        n_probes = 2;
+    }
     if prop == "C07" && matches!(topo, Topo::Unary(_)) && c.chance(1, 3) {
         // the same output value subscribed twice: "a sink" means every sink
         n_probes = 2;
